@@ -503,20 +503,23 @@ theorem tie_update_local_file_header (f : Gen.ZipFileData) (g : FileData) (h : v
   rw [hz, hu, hc, hh, hcrc, hl, Tie.Types.tie_bytes_thr]
   cases hlf : g.largeFile
   · by_cases hgt : g.compressedSize > ZIP64_BYTES_THR
-    · refine ⟨[.seek (g.headerStart + 14), .write (le32 g.crc32)], .error (.Io .Other), ?_, ?_⟩
-      · wsimp [a1, hgt, decide_true, Rs.W.seek_start, Rs.SeekSink.ofSeek]
+    · refine ⟨[], .error (.Io .Other), ?_, ?_⟩
+      · wsimp [a1, hgt, decide_true, Rs.W.seek_start, Rs.SeekSink.ofSeek, Bool.not_false, Bool.and_self]
       · intro β s k
-        simp only [updateLocalHeader, ioActs, hlf, hgt, b1, e14, ↓reduceIte, Bool.false_eq_true, zerrOf]
+        simp only [updateLocalHeader, ioActs, hlf, hgt, b1, e14, ↓reduceIte, Bool.false_eq_true, zerrOf,
+          Bool.not_false, decide_true, Bool.and_self]
     · refine ⟨[.seek (g.headerStart + 14), .write (le32 g.crc32), .write (le32 (trunc32 g.compressedSize)),
         .write (le32 (trunc32 g.uncompressedSize))], .ok (), ?_, ?_⟩
-      · wsimp [a1, hgt, decide_false, Rs.W.seek_start, Rs.SeekSink.ofSeek, h32]
+      · wsimp [a1, hgt, decide_false, Rs.W.seek_start, Rs.SeekSink.ofSeek, h32, Bool.not_false, Bool.and_false]
       · intro β s k
-        simp only [updateLocalHeader, ioActs, hlf, hgt, b1, e14, ↓reduceIte, Bool.false_eq_true]
+        simp only [updateLocalHeader, ioActs, hlf, hgt, b1, e14, ↓reduceIte, Bool.false_eq_true,
+          Bool.not_false, decide_false, Bool.and_false]
   · refine ⟨[.seek (g.headerStart + 14), .write (le32 g.crc32), .seek p, .write (le64 g.uncompressedSize),
       .write (le64 g.compressedSize)], .ok (), ?_, ?_⟩
-    · wsimp [a1, Rs.W.seek_start, Rs.SeekSink.ofSeek]
+    · wsimp [a1, Rs.W.seek_start, Rs.SeekSink.ofSeek, Bool.not_true, Bool.false_and]
     · intro β s k
-      simp only [updateLocalHeader, ioActs, hlf, b1, e14, hp, ↓reduceIte]
+      simp only [updateLocalHeader, ioActs, hlf, b1, e14, hp, ↓reduceIte, Bool.not_true, Bool.false_and,
+        Bool.false_eq_true]
 
 /-! ### non-vacuity: concrete instances of the hypotheses, evaluated -/
 
